@@ -117,6 +117,10 @@ impl SocketType {
     pub fn compatible(&self, other: SocketType) -> bool {
         let row_index = *self as usize;
         let col_index = other as usize;
+        // STREAM has no row or column in the matrix: it is not compatible with any ZMTP socket type
+        if row_index >= 11 || col_index >= 11 {
+            return false;
+        }
         COMPATIBILITY_MATRIX[row_index * 11 + col_index] != 0
     }
 }
